@@ -293,6 +293,9 @@ Section Main.
   Variable ord : bool.           (* the readings keep the attribute order (Spec/Fits.v reads_o) *)
   Hypothesis conv_law : conv_roundtrips c u ok.
   Hypothesis Hnodef : nodefault_free cfg = true.
+  (* attribute maps come back in the order the attributes are reported: the readings keep the order, or no
+     class of the fragment has an attribute map *)
+  Hypothesis Hmapsu : ord = true \/ nomaps_u u = true.
 
   Notation reads := (reads_o ord).
   Notation reads_kids := (reads_kids_o ord).
@@ -433,8 +436,11 @@ Section Main.
   Definition xsi_okq (xt : option qname) : Prop :=
     forall q, xsi_val xt = Some q -> ok (PQName q) = true /\ qname_ok q = true.
 
+  (* an attribute map of the class would capture the xsi:type attribute (finding C01-F2) *)
+  Definition xsi_free (cl : cls) (xt : option qname) : Prop :=
+    xsi_val xt <> None -> forall m, u_meta u cl = Some m -> find_any_attributes m XSI_TYPE = None.
   Definition obj_parses (k : nat) : Prop :=
-    forall cl o qn xt, wfr cl -> fits k cl o = true -> xsi_okq xt ->
+    forall cl o qn xt, wfr cl -> fits k cl o = true -> xsi_okq xt -> xsi_free cl xt ->
     forall pevs, reads (add_xsi_e xt (eobj k qn o)) pevs ->
     exists attrs ns inner,
       pevs = PStart (elem_name qn cl) attrs ns :: inner
@@ -473,6 +479,11 @@ Section Main.
 
     Variable xt0 : option qname.      (* the xsi:type attribute of this element, if any *)
     Hypothesis Hxt0 : xsi_okq xt0.
+    (* the attribute map of the class, if it has one: its value fits, the readings keep the attribute order,
+       and it does not capture xsi:type *)
+    Hypothesis Hfm : forall av, m_any_attributes m = [av] -> fits_map ok m av (field_of fs av) = true.
+    Hypothesis Hmaps : ord = true \/ m_any_attributes m = [].
+    Hypothesis Hxfree : xsi_val xt0 <> None -> find_any_attributes m XSI_TYPE = None.
 
     Let F (var : xvar) : value := field_of fs var.
     Let avars := get_attribute_vars m.
@@ -512,45 +523,6 @@ Section Main.
     Lemma xsi_type_uri : ostr_eqb (target_uri XSI_TYPE) (Some XSI_NS) = true.
     Proof. vm_compute. reflexivity. Qed.
 
-    Lemma bind_attrs_loop_ok en : en_meta en = m -> forall attrs p,
-      (forall q s, In (q, s) attrs -> q = XSI_TYPE \/ carried (en_ns en) q s) ->
-      NoDup (map fst p ++ map (fun qs => fst (entry (fst qs))) (decl attrs)) ->
-      bind_attrs_loop cfg c en attrs p [] = ROk (p ++ map (fun qs => entry (fst qs)) (decl attrs), []).
-    Proof.
-      intros Hen. induction attrs as [|[q s] attrs IH]; intros p Hc Hn.
-      - cbn [bind_attrs_loop map decl filter]. rewrite app_nil_r. reflexivity.
-      - destruct (str_eqb_spec q XSI_TYPE) as [->|Hnx].
-        + (* xsi:type: no field, the xsi namespace is never an unknown attribute *)
-          destruct (wf_class_inv m Hwc) as [F1 F2 F3 F4 F5 F6 F7 F8 F9 F10 F11 F12 F13].
-          cbn [bind_attrs_loop]. rewrite Hen. unfold find_attribute. rewrite xsi_not_attr.
-          unfold find_any_attributes. rewrite F3. cbn [find_by_namespace find].
-          rewrite xsi_type_uri. cbn [negb]. rewrite andb_false_r.
-          assert (Ed : decl ((XSI_TYPE, s) :: attrs) = decl attrs).
-          { unfold decl. cbn [filter fst]. rewrite str_eqb_refl. reflexivity. }
-          rewrite Ed in *. apply IH; [|exact Hn]. intros q' s' H'. apply Hc. right; exact H'.
-        + assert (Ed : decl ((q, s) :: attrs) = (q, s) :: decl attrs).
-          { unfold decl. cbn [filter fst]. destruct (str_eqb_spec q XSI_TYPE); [contradiction|reflexivity]. }
-          rewrite Ed in *.
-          destruct (Hc q s (or_introl eq_refl)) as [E|[var [t [Hin [Hq [Hw [Ht [Hs [Htk Hvt]]]]]]]]]; [contradiction|].
-          pose proof (assoc_attr q var Hin) as Ha.
-          cbn [bind_attrs_loop]. rewrite Hen. unfold find_attribute. rewrite Ha.
-          assert (He : entry q = (v_name var, PV (F var))) by (unfold entry; rewrite Ha; reflexivity).
-          assert (Hfresh : ~ In (v_name var) (map fst p)).
-          { cbn [map fst] in Hn. rewrite He in Hn. cbn [fst] in Hn. apply NoDup_remove_2 in Hn.
-            intros Hin'. apply Hn. apply in_or_app. left; exact Hin'. }
-          rewrite (pmem_false _ _ Hfresh).
-          unfold bind_attr. rewrite Hen.
-          rewrite (parse_var_vtext m var t (F var) (en_ns en) s Ht Hs Htk Hvt). cbn [rbind].
-          destruct (wf_attr_inv var Hw) as [_ [Hcm _]]. destruct (var_common_inv var Hcm) as [Hinit _].
-          rewrite Hinit. cbn [rbind fst snd app].
-          rewrite (pset_fresh _ _ _ Hfresh).
-          rewrite IH.
-          * cbn [map fst]. rewrite He, <- app_assoc. reflexivity.
-          * intros q' s' H'. apply Hc. right; exact H'.
-          * rewrite map_app. cbn [map fst]. rewrite <- app_assoc. cbn [app].
-            cbn [map fst] in Hn. rewrite He in Hn. exact Hn.
-    Qed.
-
     Lemma NoDup_map_inj_in {A B} (g : A -> B) l :
       (forall x y, In x l -> In y l -> g x = g y -> x = y) -> NoDup l -> NoDup (map g l).
     Proof.
@@ -561,28 +533,20 @@ Section Main.
       - apply IH; [|exact Hr]. intros x y Hx Hy. apply Hinj; right; assumption.
     Qed.
 
-    Lemma avars_qnames_nodup : NoDup (map v_qname avars).
-    Proof.
-      destruct (wf_class_inv m Hwc) as [F1 F2 F3 F4 F5 F6 F7 F8 F9 F10 F11 F12 F13].
-      unfold avars. rewrite (avars_eq m Hwc). apply sort_nodup_map. rewrite map_map.
-      assert (E : map (fun x => v_qname (snd x)) (m_attributes m) = map fst (m_attributes m)).
-      { apply map_ext_in. intros e He. rewrite forallb_forall in F9. specialize (F9 e He).
-        apply andb_true_iff in F9 as [Hq _]. apply str_eqb_eq in Hq. exact Hq. }
-      rewrite E. exact F10.
-    Qed.
-
     Lemma names_inj x y : In x (get_all_vars m) -> In y (get_all_vars m) -> v_name x = v_name y -> x = y.
     Proof.
       destruct (wf_class_inv m Hwc) as [F1 F2 F3 F4 F5 F6 F7 F8 F9 F10 F11 F12 F13].
       apply (nodup_map_inj v_name); exact F12.
     Qed.
 
+    Lemma avar_common var : In var avars -> var_common var = true.
+    Proof.
+      intros Ha. destruct (wf_class_avar m var Hwc Ha) as [[Hw _]|[_ Hwv]];
+        [destruct (wf_attr_inv var Hw) as [_ [Hc _]]; exact Hc|destruct (wf_anyattr_inv var Hwv) as [_ [_ Hc]]; exact Hc].
+    Qed.
+
     Lemma avar_all var : In var avars -> In var (get_all_vars m).
     Proof. intros H. apply (in_allvars m var Hwc). left; exact H. Qed.
-
-    (* the names of the attributes the serializer emitted *)
-    Definition emitted (var : xvar) : list qname :=
-      match e_attr var (F var) with [] => [] | _ => [v_qname var] end.
 
     Lemma nodup_keys_unique {A} (l : list (qname * A)) k a b :
       NoDup (map fst l) -> In (k, a) l -> In (k, b) l -> a = b.
@@ -604,99 +568,492 @@ Section Main.
                                             end.
     Proof. destruct xt0 as [[|ch q]|]; reflexivity. Qed.
 
-    Lemma emitted_not_xsi var : In var avars -> ~ In XSI_TYPE (emitted var).
+    (* ---- the attribute map *)
+    Definition declared (var : xvar) : Prop := wf_attr var = true /\ In (v_qname var, var) (m_attributes m).
+    Definition mapval : list (qname * str) :=
+      match m_any_attributes m with
+      | [av] => match F av with VMap mm => mm | _ => [] end
+      | _ => []
+      end.
+    Definition mapped (q : qname) (s : str) : Prop := In (q, s) mapval.
+
+    Lemma mapvar_val av : is_mapvar m av -> F av = VMap mapval.
     Proof.
-      intros Hin Hi. unfold emitted in Hi. destruct (e_attr var (F var)); [destruct Hi|]. destruct Hi as [E|[]].
-      destruct (wf_class_avar m var Hwc Hin) as [Hw _]. destruct (wf_attr_inv var Hw) as [_ [_ [_ [_ [Hr _]]]]].
-      unfold reserved_name in Hr. rewrite E, str_eqb_refl, orb_true_r in Hr. discriminate Hr.
+      intros [E _]. unfold mapval. rewrite E. destruct (fits_map_inv ok m av _ (Hfm av E)) as [mm [Ex _]].
+      unfold F in *. rewrite Ex. reflexivity.
+    Qed.
+
+    Lemma mapval_facts : NoDup (map fst mapval)
+      /\ forall kv, In kv mapval ->
+           (exists av, is_mapvar m av /\ match_namespace av (fst kv) = true)
+           /\ assoc (fst kv) (m_attributes m) = None /\ reserved_name (fst kv) = false /\ map_value_ok ok (snd kv) = true.
+    Proof.
+      unfold mapval. destruct (wf_class_inv m Hwc) as [F1 F2 F3 F4 F5 F6 F7 F8 F9 F10 F11 F12 F13].
+      destruct F3 as [E|[av [E Hwv]]]; rewrite E.
+      - split; [constructor|intros kv []].
+      - destruct (fits_map_inv ok m av _ (Hfm av E)) as [mm [Ex [Hnd Hall]]]. unfold F. rewrite Ex. split; [exact Hnd|].
+        intros kv Hkv. destruct (Hall kv Hkv) as [H1 [H2 [H3 H4]]].
+        split; [exists av; split; [split; assumption|exact H1]|]. repeat split; assumption.
+    Qed.
+
+    Lemma mapval_nomap : m_any_attributes m = [] -> mapval = [].
+    Proof. intros E. unfold mapval. rewrite E. reflexivity. Qed.
+
+    Lemma declared_in_avars var : declared var -> In var avars.
+    Proof. intros [_ Hin]. apply (declared_in m _ var Hwc Hin). Qed.
+
+    Lemma declared_not_map var : declared var -> forall mm, F var <> VMap mm.
+    Proof.
+      intros [Hw Hin] mm E. pose proof (Hfa _ Hin) as Hf. cbn [snd] in Hf. unfold F in E. rewrite E in Hf.
+      unfold Fits.fits_attr in Hf. destruct (v_tokens_factory var); discriminate Hf.
+    Qed.
+
+    Lemma declared_mapvar_neq var av : declared var -> is_mapvar m av -> v_name var <> v_name av.
+    Proof.
+      intros Hd Hm E. pose proof Hd as [Hw _]. pose proof Hm as [_ Hwv].
+      assert (var = av).
+      { apply names_inj; [apply avar_all; apply declared_in_avars; exact Hd|apply avar_all; apply (mapvar_in m av Hwc Hm)|exact E]. }
+      subst av. destruct (wf_attr_inv var Hw) as [Hk _]. destruct (wf_anyattr_inv var Hwv) as [_ [Hk' _]]. congruence.
+    Qed.
+
+    (* the names of the attributes one field contributes *)
+    Definition vnames (var : xvar) : list qname :=
+      match F var with
+      | VMap mm => map fst mm
+      | _ => match e_attr var (F var) with [] => [] | _ => [v_qname var] end
+      end.
+    Definition enames : list qname := flat_map vnames avars ++ xsi_name.
+
+    Lemma vnames_declared var : declared var -> vnames var = [] \/ vnames var = [v_qname var].
+    Proof.
+      intros Hd. unfold vnames. pose proof (declared_not_map var Hd) as Hn.
+      destruct (F var) as [| | | | | |mm0] eqn:Ex; try (destruct (e_attr var _); [left|right]; reflexivity).
+      exfalso. apply (Hn mm0). first [exact Ex|reflexivity].
+    Qed.
+
+    Lemma vnames_split var : In var avars -> map fst (e_attr var (F var)) = map Bind.split_qname (vnames var).
+    Proof.
+      intros Hin. destruct (wf_class_avar m var Hwc Hin) as [[Hw Hina]|Hmv].
+      - pose proof (declared_not_map var (conj Hw Hina)) as Hn.
+        destruct (attr_cases var (F var) Hw (Hfa _ Hina)) as [[E _]|[t [E _]]].
+        + unfold vnames. rewrite E. destruct (F var) as [| | | | | |mm0] eqn:Ex; try reflexivity. exfalso. apply (Hn mm0). first [exact Ex|reflexivity].
+        + unfold vnames. rewrite E. destruct (F var) as [| | | | | |mm0] eqn:Ex; try reflexivity. exfalso. apply (Hn mm0). first [exact Ex|reflexivity].
+      - unfold vnames. rewrite (mapvar_val var Hmv). cbn [RoundtripGen.e_attr]. rewrite !map_map. reflexivity.
+    Qed.
+
+    Lemma eats_names : map fst eatsx = map Bind.split_qname enames.
+    Proof.
+      unfold eatsx, enames, eats. rewrite !map_app. f_equal.
+      - assert (H : forall l, incl l avars ->
+                  map fst (flat_map (fun var => e_attr var (F var)) l) = map Bind.split_qname (flat_map vnames l)).
+        { induction l as [|var r IH]; intros Hi; [reflexivity|]. cbn [flat_map]. rewrite !map_app.
+          rewrite (vnames_split var (Hi var (or_introl eq_refl))), IH; [reflexivity|].
+          intros x Hx. apply Hi. right; exact Hx. }
+        apply H. apply incl_refl.
+      - rewrite xsi_attr_e_val. unfold xsi_name. destruct (xsi_val xt0); reflexivity.
+    Qed.
+
+    Lemma enames_nodup : NoDup enames.
+    Proof.
+      destruct (wf_class_inv m Hwc) as [F1 F2 F3 F4 F5 F6 F7 F8 F9 F10 F11 F12 F13].
+      destruct mapval_facts as [Hndm Hmf].
+      assert (Hdq : forall e, In e (m_attributes m) -> declared (snd e) /\ v_qname (snd e) = fst e).
+      { intros e He. rewrite forallb_forall in F9. specialize (F9 e He). apply andb_true_iff in F9 as [Hq Hw].
+        apply str_eqb_eq in Hq. split; [|exact Hq]. split; [exact Hw|]. destruct e as [q0 v0]. cbn [fst snd] in *. rewrite Hq. exact He. }
+      assert (Hdecl : NoDup (flat_map vnames (map snd (m_attributes m)))).
+      { rewrite flat_map_map. rewrite <- (map_id (flat_map (fun x : qname * xvar => vnames (snd x)) (m_attributes m))).
+        apply (nodup_flat_opt (fun e : qname * xvar => fst e) (fun q : qname => q)); [exact F10|].
+        intros e He. destruct (Hdq e He) as [Hd Hq]. destruct (vnames_declared (snd e) Hd) as [E|E]; rewrite E; [left; reflexivity|].
+        right. eexists; split; [reflexivity|exact Hq]. }
+      assert (Hdecl_in : forall q, In q (flat_map vnames (map snd (m_attributes m))) -> In q (map fst (m_attributes m))).
+      { intros q Hq. apply in_flat_map in Hq as [var [Hvar Hq]]. apply in_map_iff in Hvar as [e [<- He]].
+        destruct (Hdq e He) as [Hd Hqe]. destruct (vnames_declared (snd e) Hd) as [E|E]; rewrite E in Hq; [destruct Hq|].
+        destruct Hq as [<-|[]]. rewrite Hqe. apply in_map. exact He. }
+      assert (Hav : NoDup (flat_map vnames avars)
+                    /\ forall q, In q (flat_map vnames avars) -> In q (map fst mapval) \/ In q (map fst (m_attributes m))).
+      { unfold avars. rewrite (avars_eq m Hwc).
+        assert (Hperm : Permutation (flat_map vnames (sort_by_index (m_any_attributes m ++ map snd (m_attributes m))))
+                                    (flat_map vnames (m_any_attributes m ++ map snd (m_attributes m)))).
+        { apply Permutation.Permutation_flat_map. apply sort_perm. }
+        assert (Hun : NoDup (flat_map vnames (m_any_attributes m ++ map snd (m_attributes m)))
+                      /\ forall q, In q (flat_map vnames (m_any_attributes m ++ map snd (m_attributes m))) ->
+                           In q (map fst mapval) \/ In q (map fst (m_attributes m))).
+        { rewrite flat_map_app. destruct F3 as [E|[av [E Hwv]]].
+          - rewrite E. cbn [flat_map app]. split; [exact Hdecl|]. intros q Hq. right. apply Hdecl_in. exact Hq.
+          - rewrite E. cbn [flat_map]. rewrite app_nil_r.
+            assert (Ev : vnames av = map fst mapval) by (unfold vnames; rewrite (mapvar_val av (conj E Hwv)); reflexivity).
+            rewrite Ev. split.
+            + apply NoDup_app_intro; [exact Hndm|exact Hdecl|].
+              intros q Hq1 Hq2. apply Hdecl_in in Hq2. apply in_map_iff in Hq1 as [kv [<- Hkv]].
+              destruct (Hmf kv Hkv) as [_ [Hna _]]. destruct (assoc_some_in _ _ Hq2) as [v0 Hv0]. congruence.
+            + intros q Hq. apply in_app_or in Hq as [Hq|Hq]; [left; exact Hq|right; apply Hdecl_in; exact Hq]. }
+        destruct Hun as [Hn1 Hn2]. split.
+        - eapply Permutation_NoDup; [apply Permutation_sym; exact Hperm|exact Hn1].
+        - intros q Hq. apply Hn2. eapply Permutation_in; [exact Hperm|exact Hq]. }
+      destruct Hav as [Hn1 Hn2].
+      unfold enames. apply NoDup_app_intro; [exact Hn1| |].
+      - unfold xsi_name. destruct (xsi_val xt0); [constructor; [intros []|constructor]|constructor].
+      - intros q Hq1 Hq2. unfold xsi_name in Hq2. destruct (xsi_val xt0); [|destruct Hq2]. destruct Hq2 as [<-|[]].
+        destruct (Hn2 _ Hq1) as [Hq|Hq].
+        + apply in_map_iff in Hq as [kv [Ek Hkv]]. destruct (Hmf kv Hkv) as [_ [_ [Hr _]]].
+          unfold reserved_name in Hr. rewrite Ek, str_eqb_refl, orb_true_r in Hr. discriminate Hr.
+        + destruct (assoc_some_in _ _ Hq) as [v0 Hv0]. rewrite xsi_not_attr in Hv0. discriminate Hv0.
+    Qed.
+
+    (* every attribute of the event comes from one entry of the expected attributes *)
+    Lemma attrs_from_eats ns attrs : reads_attrs ns eatsx attrs ->
+      NoDup (map fst attrs)
+      /\ (forall q s, In (q, s) attrs -> exists ea, In ea eatsx /\ q = clark_of (fst ea) /\ atoms_read ns (snd ea) s)
+      /\ (forall ea, In ea eatsx -> exists s, atoms_read ns (snd ea) s /\ In (clark_of (fst ea), s) attrs)
+      /\ (ord = true -> map fst attrs = enames).
+    Proof.
+      intros [Hnd [Hlen [Hall Hord]]].
+      assert (Ecl : map (fun ea : XmlNs.qname * list atom => clark_of (fst ea)) eatsx = enames).
+      { rewrite <- (map_map fst clark_of), eats_names, map_map.
+        rewrite <- (map_id enames) at 2. apply map_ext. intros q. apply clark_split. }
+      split; [exact Hnd|]. split; [|split; [exact Hall|intros Ho; rewrite (Hord Ho); exact Ecl]].
+      assert (HK1 : incl enames (map fst attrs)).
+      { intros q Hq. rewrite <- Ecl in Hq. apply in_map_iff in Hq as [ea [<- Hea]].
+        destruct (Hall ea Hea) as [v [_ Hi]]. apply in_map_iff. exists (clark_of (fst ea), v). split; [reflexivity|exact Hi]. }
+      assert (HK4 : incl (map fst attrs) enames).
+      { apply NoDup_length_incl; [exact enames_nodup| |exact HK1]. rewrite map_length. apply Nat.eq_le_incl.
+        rewrite Hlen, <- Ecl, map_length. reflexivity. }
+      intros q s Hqs.
+      assert (Hq : In q enames) by (apply HK4; apply in_map_iff; exists (q, s); split; [reflexivity|exact Hqs]).
+      rewrite <- Ecl in Hq. apply in_map_iff in Hq as [ea [Eq Hea]].
+      destruct (Hall ea Hea) as [v [Hv Hi]]. rewrite Eq in Hi.
+      rewrite (nodup_keys_unique attrs q s v Hnd Hqs Hi). exists ea. split; [exact Hea|]. split; [symmetry; exact Eq|exact Hv].
+    Qed.
+
+    Lemma eats_cases ea : In ea eats ->
+      (exists var t, declared var /\ ea = (Bind.split_qname (v_qname var), e_atoms (v_format var) (F var))
+                     /\ v_types var = [t] /\ vshapeq t (v_format var) (F var) /\ tokens_agree var (F var))
+      \/ (exists kv, In kv mapval /\ ea = (Bind.split_qname (fst kv), [AText (snd kv)])).
+    Proof.
+      intros Hea. unfold eats in Hea. apply in_flat_map in Hea as [var [Hin Hea]].
+      destruct (wf_class_avar m var Hwc Hin) as [[Hw Hina]|Hmv].
+      - left. destruct (attr_cases var (F var) Hw (Hfa _ Hina)) as [[E _]|[t [E [Ht [Hs Htk]]]]]; rewrite E in Hea; [destruct Hea|].
+        destruct Hea as [<-|[]]. exists var, t. repeat split; assumption.
+      - right. rewrite (mapvar_val var Hmv) in Hea. cbn [RoundtripGen.e_attr] in Hea.
+        apply in_map_iff in Hea as [kv [<- Hkv]]. exists kv. split; [exact Hkv|reflexivity].
     Qed.
 
     Lemma reads_attrs_carried ns attrs : reads_attrs ns eatsx attrs ->
       (forall q s, In (q, s) attrs ->
          (q = XSI_TYPE /\ exists xq, xsi_val xt0 = Some xq /\ resolve_qname ns s = Some (Bind.split_qname xq))
-         \/ (q <> XSI_TYPE /\ carried ns q s))
-      /\ (forall var, In var avars -> e_attr var (F var) <> [] -> exists s, In (v_qname var, s) attrs)
+         \/ (q <> XSI_TYPE /\ carried ns q s)
+         \/ (q <> XSI_TYPE /\ mapped q s))
+      /\ (forall var, declared var -> e_attr var (F var) <> [] -> exists s, In (v_qname var, s) attrs)
       /\ NoDup (map fst attrs)
       /\ (xsi_val xt0 = None -> ~ In XSI_TYPE (map fst attrs))
       /\ (forall xq, xsi_val xt0 = Some xq -> exists s, In (XSI_TYPE, s) attrs /\ resolve_qname ns s = Some (Bind.split_qname xq)).
     Proof.
-      intros [Hnd [Hlen [Hall Hord]]].
-      set (K := flat_map emitted avars ++ xsi_name).
-      assert (Hcase : forall var, In var avars ->
-                (e_attr var (F var) = [] /\ default_call (v_default var) = F var)
-                \/ (exists t, e_attr var (F var) = [(Bind.split_qname (v_qname var), e_atoms (v_format var) (F var))]
-                              /\ v_types var = [t] /\ vshapeq t (v_format var) (F var) /\ tokens_agree var (F var))).
-      { intros var Hin. destruct (wf_class_avar m var Hwc Hin) as [Hw Hina].
-        apply (attr_cases var (F var) Hw). apply (Hfa _ Hina). }
-      assert (HinL : forall var, In var avars -> e_attr var (F var) <> [] ->
-                exists t s, v_types var = [t] /\ vshapeq t (v_format var) (F var) /\ tokens_agree var (F var)
-                            /\ vtext ns (v_format var) (F var) s /\ In (v_qname var, s) attrs).
-      { intros var Hin Hne. destruct (Hcase var Hin) as [[E _]|[t [E [Ht [Hs Htk]]]]]; [congruence|].
-        destruct (Hall (Bind.split_qname (v_qname var), e_atoms (v_format var) (F var))) as [v [Hv Hinv]].
-        { unfold eatsx, eats. apply in_or_app. left. apply in_flat_map. exists var. split; [exact Hin|]. rewrite E. left; reflexivity. }
-        cbn [fst snd] in *. rewrite clark_split in Hinv.
-        exists t, v. repeat split; try assumption. apply (atoms_read_vtext c u ok t _ _ ns v Hs Hv). }
-      assert (HinX : forall xq, xsi_val xt0 = Some xq ->
-                exists s, In (XSI_TYPE, s) attrs /\ resolve_qname ns s = Some (Bind.split_qname xq)).
-      { intros xq Hx. destruct (Hall (Bind.split_qname XSI_TYPE, [AQName (Bind.split_qname xq)])) as [v [Hv Hinv]].
+      intros Hr. destruct (attrs_from_eats ns attrs Hr) as [Hnd [Hfrom [Hall _]]].
+      destruct mapval_facts as [_ Hmf].
+      assert (Hcls : forall q s, In (q, s) attrs ->
+                (q = XSI_TYPE /\ exists xq, xsi_val xt0 = Some xq /\ resolve_qname ns s = Some (Bind.split_qname xq))
+                \/ (q <> XSI_TYPE /\ carried ns q s)
+                \/ (q <> XSI_TYPE /\ mapped q s)).
+      { intros q s Hqs. destruct (Hfrom q s Hqs) as [ea [Hea [Eq Hv]]].
+        unfold eatsx in Hea. apply in_app_or in Hea as [Hea|Hea].
+        - destruct (eats_cases ea Hea) as [[var [t [[Hw Hina] [-> [Ht [Hs Htk]]]]]]|[kv [Hkv ->]]]; cbn [fst snd] in *; rewrite clark_split in Eq; subst q.
+          + right. left. split.
+            * intros Ex. destruct (wf_attr_inv var Hw) as [_ [_ [_ [_ [Hr' _]]]]].
+              unfold reserved_name in Hr'. rewrite Ex, str_eqb_refl, orb_true_r in Hr'. discriminate Hr'.
+            * exists var, t. repeat split; try assumption. apply (atoms_read_vtext c u ok t _ _ ns s Hs Hv).
+          + right. right. destruct (Hmf kv Hkv) as [_ [_ [Hres _]]]. split.
+            * intros Ex. unfold reserved_name in Hres. rewrite Ex, str_eqb_refl, orb_true_r in Hres. discriminate Hres.
+            * cbn [atoms_read atoms_text] in Hv. unfold mapped. assert (Es : s = snd kv) by (cbn in Hv; inversion Hv; reflexivity).
+              rewrite Es. destruct kv; exact Hkv.
+        - left. rewrite xsi_attr_e_val in Hea. destruct (xsi_val xt0) as [xq|] eqn:Ex; [|destruct Hea]. destruct Hea as [<-|[]].
+          cbn [fst snd atoms_read] in *. rewrite clark_split in Eq. split; [exact Eq|]. exists xq. split; [reflexivity|exact Hv]. }
+      split; [exact Hcls|]. split; [|split; [exact Hnd|split]].
+      - intros var [Hw Hina] Hne.
+        destruct (attr_cases var (F var) Hw (Hfa _ Hina)) as [[E _]|[t [E _]]]; [congruence|].
+        destruct (Hall (Bind.split_qname (v_qname var), e_atoms (v_format var) (F var))) as [v [_ Hi]].
+        { unfold eatsx, eats. apply in_or_app. left. apply in_flat_map. exists var.
+          split; [apply declared_in_avars; split; assumption|]. rewrite E. left; reflexivity. }
+        cbn [fst] in Hi. rewrite clark_split in Hi. exists v. exact Hi.
+      - intros Hx Hi. apply in_map_iff in Hi as [[q s] [Eq Hqs]]. cbn [fst] in Eq. subst q.
+        destruct (Hcls _ _ Hqs) as [[_ [xq [Ex _]]]|[[Hn _]|[Hn _]]]; [congruence|apply Hn; reflexivity|apply Hn; reflexivity].
+      - intros xq Hx. destruct (Hall (Bind.split_qname XSI_TYPE, [AQName (Bind.split_qname xq)])) as [v [Hv Hinv]].
         { unfold eatsx. apply in_or_app. right. rewrite xsi_attr_e_val, Hx. left; reflexivity. }
-        cbn [fst snd atoms_read] in *. rewrite clark_split in Hinv. exists v. split; assumption. }
-      assert (HK1 : incl K (map fst attrs)).
-      { intros q Hq. unfold K in Hq. apply in_app_or in Hq as [Hq|Hq].
-        - apply in_flat_map in Hq as [var [Hin Hq]].
-          unfold emitted in Hq. destruct (e_attr var (F var)) eqn:E; [destruct Hq|].
-          destruct Hq as [<-|[]]. destruct (HinL var Hin) as [t [s0 [_ [_ [_ [_ Hi]]]]]]; [congruence|].
-          apply in_map_iff. exists (v_qname var, s0). split; [reflexivity|exact Hi].
-        - unfold xsi_name in Hq. destruct (xsi_val xt0) as [xq|] eqn:Ex; [|destruct Hq]. destruct Hq as [<-|[]].
-          destruct (HinX xq eq_refl) as [s0 [Hi _]]. apply in_map_iff. exists (XSI_TYPE, s0). split; [reflexivity|exact Hi]. }
-      assert (HK2 : NoDup K).
-      { unfold K. apply NoDup_app_intro.
-        - rewrite <- (map_id (flat_map emitted avars)).
-          apply (nodup_flat_opt v_qname (fun q : qname => q)); [exact avars_qnames_nodup|].
-          intros var _. unfold emitted. destruct (e_attr var (F var)); [left; reflexivity|].
-          right. eexists; split; reflexivity.
-        - unfold xsi_name. destruct (xsi_val xt0); [constructor; [intros []|constructor]|constructor].
-        - intros q Hq1 Hq2. unfold xsi_name in Hq2. destruct (xsi_val xt0); [|destruct Hq2]. destruct Hq2 as [<-|[]].
-          apply in_flat_map in Hq1 as [var [Hin Hq1]]. apply (emitted_not_xsi var Hin Hq1). }
-      assert (HK3' : forall l, incl l avars ->
-                length (flat_map emitted l) = length (flat_map (fun var => e_attr var (F var)) l)).
-      { induction l as [|var r IH]; intros Hi; [reflexivity|].
-        cbn [flat_map]. rewrite !app_length, IH.
-        - f_equal. unfold emitted. destruct (Hcase var (Hi var (or_introl eq_refl))) as [[E _]|[t [E _]]]; rewrite E; reflexivity.
-        - intros v Hvin. apply Hi. right; exact Hvin. }
-      assert (HK3 : length K = length eatsx).
-      { unfold K, eatsx. rewrite !app_length. f_equal; [apply HK3'; apply incl_refl|].
-        rewrite xsi_attr_e_val. unfold xsi_name. destruct (xsi_val xt0); reflexivity. }
-      assert (HK4 : incl (map fst attrs) K).
-      { apply NoDup_length_incl; [exact HK2| |exact HK1]. rewrite map_length. apply Nat.eq_le_incl.
-        transitivity (length eatsx); [exact Hlen|symmetry; exact HK3]. }
-      split; [|split; [|split; [exact Hnd|split; [|exact HinX]]]].
-      - intros q s Hqs.
-        assert (Hq : In q K) by (apply HK4; apply in_map_iff; exists (q, s); split; [reflexivity|exact Hqs]).
-        unfold K in Hq. apply in_app_or in Hq as [Hq|Hq].
-        + right. apply in_flat_map in Hq as [var [Hin Hq]].
-          pose proof (emitted_not_xsi var Hin) as Hnx.
-          unfold emitted in Hq, Hnx. destruct (e_attr var (F var)) eqn:E; [destruct Hq|]. destruct Hq as [<-|[]].
-          split; [intros Ex; apply Hnx; left; exact Ex|].
-          destruct (HinL var Hin) as [t [s0 [Ht [Hs [Htk [Hvt Hi]]]]]]; [congruence|].
-          pose proof (nodup_keys_unique attrs (v_qname var) s s0 Hnd Hqs Hi) as Es. subst s0.
-          destruct (wf_class_avar m var Hwc Hin) as [Hw Hina].
-          exists var, t. repeat split; assumption.
-        + left. unfold xsi_name in Hq. destruct (xsi_val xt0) as [xq|] eqn:Ex; [|destruct Hq]. destruct Hq as [<-|[]].
-          split; [reflexivity|]. exists xq. split; [reflexivity|].
-          destruct (HinX xq eq_refl) as [s0 [Hi Hr]].
-          rewrite (nodup_keys_unique attrs XSI_TYPE s s0 Hnd Hqs Hi). exact Hr.
-      - intros var Hin Hne. destruct (HinL var Hin Hne) as [t [s0 [_ [_ [_ [_ Hi]]]]]]. exists s0. exact Hi.
-      - intros Hx Hi. apply HK4 in Hi. unfold K in Hi. apply in_app_or in Hi as [Hi|Hi].
-        + apply in_flat_map in Hi as [var [Hin Hi]]. apply (emitted_not_xsi var Hin Hi).
-        + unfold xsi_name in Hi. rewrite Hx in Hi. destruct Hi.
+        cbn [fst snd atoms_read] in *. rewrite clark_split in Hinv. exists v. split; assumption.
     Qed.
 
-    Lemma decl_in q s attrs : In (q, s) (decl attrs) <-> In (q, s) attrs /\ q <> XSI_TYPE.
+    Lemma pget_app_other k k' v (p : params) : k <> k' -> pget k (p ++ [(k', v)]) = pget k p.
     Proof.
-      unfold decl. rewrite filter_In. cbn [fst]. split; intros [H1 H2]; (split; [exact H1|]).
-      - intros E. subst q. rewrite str_eqb_refl in H2. discriminate H2.
-      - destruct (str_eqb_spec q XSI_TYPE); [contradiction|reflexivity].
+      unfold pget. intros Hne. induction p as [|[k0 x] r IH]; cbn [app assoc].
+      - destruct (str_eqb_spec k k'); [contradiction|reflexivity].
+      - destruct (str_eqb k k0); [reflexivity|exact IH].
+    Qed.
+
+    Lemma filter_none {A} (f : A -> bool) l : (forall x, In x l -> f x = false) -> filter f l = [].
+    Proof.
+      induction l as [|x r IH]; intros H; [reflexivity|]. cbn [filter]. rewrite (H x (or_introl eq_refl)).
+      apply IH. intros y Hy. apply H. right; exact Hy.
+    Qed.
+
+    Lemma nodup_app_disj' {A} (a b : list A) : NoDup (a ++ b) -> forall x, In x a -> In x b -> False.
+    Proof.
+      induction a as [|y a IH]; intros Hn x Ha Hb; [destruct Ha|]. cbn [app] in Hn. inversion Hn as [|? ? Hy Hn']; subst.
+      destruct Ha as [->|Ha]; [apply Hy; apply in_or_app; right; exact Hb|apply (IH Hn' x Ha Hb)].
+    Qed.
+
+    (* ---- the map attributes come in the order of the map *)
+    Definition ismap (qs : qname * str) : bool := existsb (str_eqb (fst qs)) (map fst mapval).
+
+    Lemma ismap_in q s : ismap (q, s) = true <-> In q (map fst mapval).
+    Proof.
+      unfold ismap. cbn [fst]. rewrite existsb_exists. split.
+      - intros [x [Hx E]]. apply str_eqb_eq in E. subst x. exact Hx.
+      - intros H. exists q. split; [exact H|apply str_eqb_refl].
+    Qed.
+
+    Lemma filter_mid {A} (f : A -> bool) (a b c0 : list A) :
+      (forall x, In x a -> f x = false) -> (forall x, In x b -> f x = true) -> (forall x, In x c0 -> f x = false) ->
+      filter f (a ++ b ++ c0) = b.
+    Proof.
+      intros Ha Hb Hc. rewrite !filter_app.
+      assert (E1 : filter f a = []) by (induction a as [|x r IH]; [reflexivity|]; cbn [filter]; rewrite (Ha x (or_introl eq_refl)); apply IH; intros y Hy; apply Ha; right; exact Hy).
+      assert (E3 : filter f c0 = []) by (induction c0 as [|x r IH]; [reflexivity|]; cbn [filter]; rewrite (Hc x (or_introl eq_refl)); apply IH; intros y Hy; apply Hc; right; exact Hy).
+      assert (E2 : filter f b = b) by (induction b as [|x r IH]; [reflexivity|]; cbn [filter]; rewrite (Hb x (or_introl eq_refl)); f_equal; apply IH; intros y Hy; apply Hb; right; exact Hy).
+      rewrite E1, E2, E3, app_nil_r. reflexivity.
+    Qed.
+
+    Lemma same_keys_eq {A} (l1 l2 : list (qname * A)) :
+      map fst l1 = map fst l2 -> NoDup (map fst l2) -> (forall x, In x l1 -> In x l2) -> l1 = l2.
+    Proof.
+      revert l2. induction l1 as [|[k a] r IH]; intros l2 Hk Hn Hin; destruct l2 as [|[k' a'] r']; try discriminate Hk; [reflexivity|].
+      cbn [map fst] in Hk. inversion Hk as [[Ek Er]]. subst k'.
+      cbn [map fst] in Hn. inversion Hn as [|? ? Hk' Hr']; subst.
+      assert (a = a').
+      { destruct (Hin (k, a) (or_introl eq_refl)) as [E|Hi]; [inversion E; reflexivity|].
+        exfalso. apply Hk'. apply in_map_iff. exists (k, a). split; [reflexivity|exact Hi]. }
+      subst a'. f_equal. apply IH; [exact Er|exact Hr'|].
+      intros x Hx. destruct (Hin x (or_intror Hx)) as [E|Hi]; [|exact Hi].
+      exfalso. apply Hk'. rewrite <- Er. subst x. apply in_map_iff. exists (k, a). split; [reflexivity|exact Hx].
+    Qed.
+
+    Lemma filter_map_fst (f : qname -> bool) (l : list (qname * str)) :
+      map fst (filter (fun qs => f (fst qs)) l) = filter f (map fst l).
+    Proof. induction l as [|[q s0] r IH]; [reflexivity|]. cbn [filter map fst]. destruct (f q); cbn [map fst]; rewrite IH; reflexivity. Qed.
+
+    Lemma map_part ns attrs : reads_attrs ns eatsx attrs -> filter ismap attrs = mapval.
+    Proof.
+      intros Hr. destruct (attrs_from_eats ns attrs Hr) as [Hnd [_ [_ Hord]]].
+      destruct (reads_attrs_carried ns attrs Hr) as [Hcls _].
+      destruct mapval_facts as [Hndm Hmf].
+      destruct Hmaps as [Ho|Hno].
+      2:{ rewrite (mapval_nomap Hno). apply filter_none. intros x _. unfold ismap. rewrite (mapval_nomap Hno). reflexivity. }
+      apply same_keys_eq; [|exact Hndm|].
+      - pose proof (filter_map_fst (fun q => existsb (str_eqb q) (map fst mapval)) attrs) as Hfm'.
+        cbn beta in Hfm'. fold ismap in Hfm'.
+        change (fun qs : qname * str => existsb (str_eqb (fst qs)) (map fst mapval)) with ismap in Hfm'.
+        rewrite Hfm'.
+        transitivity (filter (fun q : qname => existsb (str_eqb q) (map fst mapval)) enames);
+          [apply (f_equal (filter (fun q : qname => existsb (str_eqb q) (map fst mapval)))); exact (Hord Ho)|].
+        (* the names: those before the map, the keys of the map, those after *)
+        destruct (wf_class_inv m Hwc) as [F1 F2 F3 F4 F5 F6 F7 F8 F9 F10 F11 F12 F13].
+        pose proof enames_nodup as Hne.
+        destruct F3 as [E|[av [E Hwv]]].
+        { rewrite (mapval_nomap E). apply filter_none. intros x _. reflexivity. }
+        assert (Hinav : In av avars) by (apply (mapvar_in m av Hwc (conj E Hwv))).
+        apply in_split in Hinav as [L1 [L2 EL]].
+        assert (Ev : vnames av = map fst mapval) by (unfold vnames; rewrite (mapvar_val av (conj E Hwv)); reflexivity).
+        unfold enames in Hne |- *. rewrite EL in Hne |- *. rewrite flat_map_app in Hne |- *. cbn [flat_map] in Hne |- *.
+        rewrite Ev in Hne |- *. rewrite <- !app_assoc in Hne |- *.
+        assert (Hdisj : forall a b : list qname, NoDup (a ++ map fst mapval ++ b) ->
+                  forall x, (In x a \/ In x b) -> existsb (str_eqb x) (map fst mapval) = false).
+        { intros a b Hn x Hx. apply existsb_false_iff'. intros y Hy. destruct (str_eqb_spec x y) as [->|_]; [|reflexivity].
+          exfalso. destruct Hx as [Hx|Hx].
+          - apply (nodup_app_disj' a (map fst mapval ++ b) Hn y Hx). apply in_or_app. left; exact Hy.
+          - apply NoDup_app_remove_l in Hn. apply (nodup_app_disj' (map fst mapval) b Hn y Hy Hx). }
+        apply filter_mid.
+        + intros x Hx. apply (Hdisj _ _ Hne). left; exact Hx.
+        + intros x Hx. apply existsb_exists. exists x. split; [exact Hx|apply str_eqb_refl].
+        + intros x Hx. apply (Hdisj _ _ Hne). right; exact Hx.
+      - intros [q s] Hx. apply filter_In in Hx as [Hqs Him]. apply ismap_in in Him.
+        destruct (Hcls q s Hqs) as [[Eq _]|[[_ Hc]|[_ Hm]]]; [| |exact Hm].
+        + exfalso. apply in_map_iff in Him as [kv [Ek Hkv]]. destruct (Hmf kv Hkv) as [_ [_ [Hres _]]].
+          unfold reserved_name in Hres. rewrite Ek, Eq, str_eqb_refl, orb_true_r in Hres. discriminate Hres.
+        + exfalso. destruct Hc as [var [t [Hin _]]]. apply in_map_iff in Him as [kv [Ek Hkv]].
+          destruct (Hmf kv Hkv) as [_ [Hna _]]. rewrite Ek, (assoc_attr q var Hin) in Hna. discriminate Hna.
+    Qed.
+
+    (* ---- the attribute loop *)
+    Definition PInv (p : params) (done : list (qname * str)) : Prop :=
+      NoDup (map fst p)
+      /\ (forall k pv, In (k, pv) p ->
+            (exists var, declared var /\ k = v_name var /\ pv = PV (F var))
+            \/ (exists av, is_mapvar m av /\ k = v_name av /\ pv = PV (VMap done) /\ done <> []))
+      /\ (forall av, is_mapvar m av -> pget (v_name av) p = match done with [] => None | _ => Some (PV (VMap done)) end).
+
+    Lemma mset_fresh q v (l : list (qname * str)) : ~ In q (map fst l) -> mset q v l = l ++ [(q, v)].
+    Proof.
+      induction l as [|[k x] r IH]; intros H; [reflexivity|]. cbn [mset].
+      destruct (str_eqb_spec q k) as [->|_]; [exfalso; apply H; left; reflexivity|].
+      cbn [app]. f_equal. apply IH. intros Hi. apply H. right; exact Hi.
+    Qed.
+
+    Lemma no_colon_literal s ns : existsb (N.eqb 58) s = false -> parse_any_attribute s ns = s.
+    Proof.
+      intros H. unfold parse_any_attribute, text_split.
+      assert (E : split_at 58 s = None).
+      { induction s as [|ch r IH]; [reflexivity|]. cbn [existsb] in H. apply orb_false_iff in H as [H1 H2].
+        cbn [split_at]. rewrite N.eqb_sym in H1. rewrite H1. rewrite (IH H2). reflexivity. }
+      rewrite E. reflexivity.
+    Qed.
+
+    Lemma find_any_map av q : is_mapvar m av -> match_namespace av q = true -> find_any_attributes m q = Some av.
+    Proof. intros [E _] Hm. unfold find_any_attributes, find_by_namespace. rewrite E. cbn [find]. rewrite Hm. reflexivity. Qed.
+
+    Lemma find_any_nomap q : m_any_attributes m = [] -> find_any_attributes m q = None.
+    Proof. intros E. unfold find_any_attributes, find_by_namespace. rewrite E. reflexivity. Qed.
+
+    Lemma bind_attrs_loop_ok en : en_meta en = m -> forall attrs p done,
+      (forall q s, In (q, s) attrs -> (q = XSI_TYPE /\ xsi_val xt0 <> None) \/ carried (en_ns en) q s \/ mapped q s) ->
+      NoDup (map fst attrs) ->
+      mapval = done ++ filter ismap attrs ->
+      PInv p done ->
+      (forall q s var, In (q, s) attrs -> In (q, var) (m_attributes m) -> ~ In (v_name var) (map fst p)) ->
+      exists p', bind_attrs_loop cfg c en attrs p [] = ROk (p', [])
+        /\ PInv p' mapval
+        /\ (forall k, In k (map fst p) -> In k (map fst p'))
+        /\ (forall q s var, In (q, s) attrs -> In (q, var) (m_attributes m) -> In (v_name var) (map fst p')).
+    Proof.
+      intros Hen. destruct mapval_facts as [Hndm Hmf].
+      induction attrs as [|[q s] attrs IH]; intros p done Hc Hnd Hmv Hinv Hfresh.
+      - cbn [filter] in Hmv. rewrite app_nil_r in Hmv. subst done. exists p. cbn [bind_attrs_loop].
+        split; [reflexivity|]. split; [exact Hinv|]. split; [auto|intros q s var []].
+      - cbn [map fst] in Hnd. inversion Hnd as [|? ? Hq Hnd']; subst.
+        destruct (Hc q s (or_introl eq_refl)) as [[-> Hx]|[Hcar|Hmp]].
+        + (* xsi:type: no field; an attribute map of this class does not capture it *)
+          cbn [bind_attrs_loop]. rewrite Hen. unfold find_attribute. rewrite xsi_not_attr.
+          rewrite (Hxfree Hx). rewrite xsi_type_uri. cbn [negb]. rewrite andb_false_r.
+          assert (Ef : filter ismap ((XSI_TYPE, s) :: attrs) = filter ismap attrs).
+          { cbn [filter]. destruct (ismap (XSI_TYPE, s)) eqn:Ei; [|reflexivity]. exfalso.
+            apply ismap_in in Ei. apply in_map_iff in Ei as [kv [Ek Hkv]]. destruct (Hmf kv Hkv) as [_ [_ [Hres _]]].
+            unfold reserved_name in Hres. rewrite Ek, str_eqb_refl, orb_true_r in Hres. discriminate Hres. }
+          rewrite Ef in Hmv.
+          destruct (IH p done) as [p' [E [Hi' [Hk' Hd']]]]; [intros q' s' H'; apply Hc; right; exact H'|exact Hnd'|exact Hmv|exact Hinv| |].
+          { intros q' s' var H1 H2. apply (Hfresh q' s' var); [right; exact H1|exact H2]. }
+          exists p'. split; [exact E|]. split; [exact Hi'|]. split; [exact Hk'|].
+          intros q' s' var [E'|H1] H2; [|apply (Hd' q' s' var H1 H2)].
+          inversion E'; subst. exfalso. pose proof xsi_not_attr as Hxa. rewrite (assoc_attr _ _ H2) in Hxa. discriminate Hxa.
+        + (* a declared attribute *)
+          destruct Hcar as [var [t [Hin [Hqv [Hw [Ht [Hs [Htk Hvt]]]]]]]].
+          pose proof (assoc_attr q var Hin) as Ha.
+          cbn [bind_attrs_loop]. rewrite Hen. unfold find_attribute. rewrite Ha.
+          assert (Hfr : ~ In (v_name var) (map fst p)) by (apply (Hfresh q s var (or_introl eq_refl) Hin)).
+          rewrite (pmem_false _ _ Hfr).
+          unfold bind_attr. rewrite Hen.
+          rewrite (parse_var_vtext m var t (F var) (en_ns en) s Ht Hs Htk Hvt). cbn [rbind].
+          destruct (wf_attr_inv var Hw) as [_ [Hcm _]]. destruct (var_common_inv var Hcm) as [Hinit _].
+          rewrite Hinit. cbn [rbind fst snd app].
+          rewrite (pset_fresh _ _ _ Hfr).
+          assert (Hdv : declared var) by (split; [exact Hw|rewrite Hqv; exact Hin]).
+          assert (Ef : filter ismap ((q, s) :: attrs) = filter ismap attrs).
+          { cbn [filter]. destruct (ismap (q, s)) eqn:Ei; [|reflexivity]. exfalso.
+            apply ismap_in in Ei. apply in_map_iff in Ei as [kv [Ek Hkv]]. destruct (Hmf kv Hkv) as [_ [Hna _]].
+            rewrite Ek, Ha in Hna. discriminate Hna. }
+          rewrite Ef in Hmv.
+          destruct Hinv as [Hn1 [Hn2 Hn3]].
+          destruct (IH (p ++ [(v_name var, PV (F var))]) done) as [p' [E [Hi' [Hk' Hd']]]];
+            [intros q' s' H'; apply Hc; right; exact H'|exact Hnd'|exact Hmv| | |].
+          { split; [|split].
+            - rewrite map_app. cbn [map fst]. apply NoDup_app_intro; [exact Hn1|constructor; [intros []|constructor]|].
+              intros x Hx [<-|[]]. exact (Hfr Hx).
+            - intros k pv Hi. apply in_app_or in Hi as [Hi|[E'|[]]]; [apply (Hn2 k pv Hi)|]. inversion E'; subst.
+              left. exists var. repeat split; assumption.
+            - intros av Hav. rewrite pget_app_other; [apply (Hn3 av Hav)|].
+              intros E'. apply (declared_mapvar_neq var av Hdv Hav). symmetry. exact E'. }
+          { intros q' s' var' H1 H2 Hi. rewrite map_app in Hi. apply in_app_or in Hi as [Hi|[E'|[]]].
+            - apply (Hfresh q' s' var' (or_intror H1) H2 Hi).
+            - cbn [fst] in E'.
+              assert (var' = var).
+              { apply names_inj; [apply avar_all; apply (declared_in m _ var' Hwc H2)|apply avar_all; apply (declared_in m _ var Hwc Hin)|symmetry; exact E']. }
+              subst var'. pose proof (assoc_attr q' var H2) as Ha'.
+              assert (q' = q).
+              { destruct (wf_class_inv m Hwc) as [F1 F2 F3 F4 F5 F6 F7 F8 F9 F10 F11 F12 F13].
+                rewrite forallb_forall in F9. pose proof (F9 _ H2) as G1. pose proof (F9 _ Hin) as G2. cbn [fst snd] in G1, G2.
+                apply andb_true_iff in G1 as [G1 _], G2 as [G2 _]. apply str_eqb_eq in G1, G2. congruence. }
+              subst q'. apply Hq. apply in_map_iff. exists (q, s'). split; [reflexivity|exact H1]. }
+          exists p'. split; [exact E|]. split; [exact Hi'|]. split.
+          * intros k Hk. apply Hk'. rewrite map_app. apply in_or_app. left; exact Hk.
+          * intros q' s' var' [E'|H1] H2; [|apply (Hd' q' s' var' H1 H2)].
+            inversion E'; subst. rewrite (assoc_attr _ _ H2) in Ha. inversion Ha; subst.
+            apply Hk'. rewrite map_app. apply in_or_app. right. left; reflexivity.
+        + (* an entry of the attribute map *)
+          unfold mapped in Hmp. destruct (Hmf (q, s) Hmp) as [[av [Hav Hmn]] [Hna [Hres Hvok]]]. cbn [fst snd] in *.
+          cbn [bind_attrs_loop]. rewrite Hen. unfold find_attribute. rewrite Hna.
+          rewrite (find_any_map av q Hav Hmn).
+          assert (Ei : ismap (q, s) = true) by (apply ismap_in; apply in_map_iff; exists (q, s); split; [reflexivity|exact Hmp]).
+          cbn [filter] in Hmv. rewrite Ei in Hmv.
+          assert (Hqd : ~ In q (map fst done)).
+          { rewrite Hmv in Hndm. rewrite map_app in Hndm. intros Hi.
+            apply (nodup_app_disj' _ _ Hndm q Hi). cbn [map fst]. left; reflexivity. }
+          destruct Hinv as [Hn1 [Hn2 Hn3]].
+          unfold map_value_ok in Hvok. apply andb_true_iff in Hvok as [_ Hnc]. apply negb_true_iff in Hnc.
+          unfold bind_any_attr.
+          set (p1 := if pmem (v_name av) p then p else pset (v_name av) (PV (VMap [])) p).
+          assert (Hp1 : pget (v_name av) p1 = Some (PV (VMap done)) /\ NoDup (map fst p1)
+                        /\ (forall k pv, In (k, pv) p1 -> k <> v_name av -> In (k, pv) p)
+                        /\ (forall k, In k (map fst p) -> In k (map fst p1))
+                        /\ (forall k, In k (map fst p1) -> k = v_name av \/ In k (map fst p))).
+          { pose proof (Hn3 av Hav) as Hg. unfold p1, pmem. unfold pget in Hg. destruct done as [|d0 dr].
+            - rewrite Hg. cbn [is_some].
+              pose proof (pget_none_inv _ _ Hg) as Hfr. rewrite (pset_fresh _ _ _ Hfr).
+              split; [apply pget_mid; exact Hfr|]. split.
+              + rewrite map_app. cbn [map fst]. apply NoDup_app_intro; [exact Hn1|constructor; [intros []|constructor]|].
+                intros x Hx [<-|[]]. exact (Hfr Hx).
+              + split; [|split].
+                * intros k pv Hi Hne. apply in_app_or in Hi as [Hi|[E'|[]]]; [exact Hi|]. inversion E'; subst. congruence.
+                * intros k Hk. rewrite map_app. apply in_or_app. left; exact Hk.
+                * intros k Hk. rewrite map_app in Hk. apply in_app_or in Hk as [Hk|[E'|[]]]; [right; exact Hk|left; symmetry; exact E'].
+            - rewrite Hg. cbn [is_some]. split; [exact Hg|]. split; [exact Hn1|]. split; [auto|]. split; auto. }
+          destruct Hp1 as [Hg1 [Hnd1 [Hsub1 [Hk1 Hk1']]]].
+          rewrite Hg1. cbn [rbind].
+          rewrite (no_colon_literal s (en_ns en) Hnc), (mset_fresh q s done Hqd).
+          set (p2 := pset (v_name av) (PV (VMap (done ++ [(q, s)]))) p1).
+          assert (Hmv2 : mapval = (done ++ [(q, s)]) ++ filter ismap attrs) by (rewrite <- app_assoc; exact Hmv).
+          destruct (pget_split _ _ _ Hg1) as [pa [pb [Ep1 Hpa]]].
+          assert (Ep2 : p2 = pa ++ (v_name av, PV (VMap (done ++ [(q, s)]))) :: pb).
+          { unfold p2. rewrite Ep1. apply pset_replace. exact Hpa. }
+          assert (Hkeys2 : map fst p2 = map fst p1).
+          { rewrite Ep2, Ep1, !map_app. reflexivity. }
+          destruct (IH p2 (done ++ [(q, s)])) as [p' [E [Hi' [Hk' Hd']]]];
+            [intros q' s' H'; apply Hc; right; exact H'|exact Hnd'|exact Hmv2| | |].
+          { split; [rewrite Hkeys2; exact Hnd1|split].
+            - intros k pv Hi. rewrite Ep2 in Hi. apply in_app_or in Hi as [Hi|[E'|Hi]].
+              + assert (Hne : k <> v_name av).
+                { intros ->. apply Hpa. apply in_map_iff. exists (v_name av, pv). split; [reflexivity|exact Hi]. }
+                assert (Hip : In (k, pv) p) by (apply Hsub1; [rewrite Ep1; apply in_or_app; left; exact Hi|exact Hne]).
+                destruct (Hn2 k pv Hip) as [H|[av' [Hav' [Ek _]]]]; [left; exact H|].
+                exfalso. apply Hne. rewrite Ek. f_equal.
+                destruct Hav as [Ea _], Hav' as [Ea' _]. rewrite Ea in Ea'. inversion Ea'. reflexivity.
+              + inversion E'; subst. right. exists av. split; [exact Hav|]. split; [reflexivity|]. split; [reflexivity|]. destruct done; discriminate.
+              + assert (Hne : k <> v_name av).
+                { intros ->. rewrite Ep1 in Hnd1. rewrite map_app in Hnd1. cbn [map fst] in Hnd1.
+                  apply NoDup_remove_2 in Hnd1. apply Hnd1. apply in_or_app. right.
+                  apply in_map_iff. exists (v_name av, pv). split; [reflexivity|exact Hi]. }
+                assert (Hip : In (k, pv) p) by (apply Hsub1; [rewrite Ep1; apply in_or_app; right; right; exact Hi|exact Hne]).
+                destruct (Hn2 k pv Hip) as [H|[av' [Hav' [Ek _]]]]; [left; exact H|].
+                exfalso. apply Hne. rewrite Ek. f_equal.
+                destruct Hav as [Ea _], Hav' as [Ea' _]. rewrite Ea in Ea'. inversion Ea'. reflexivity.
+            - intros av' Hav'.
+              assert (av' = av) by (destruct Hav as [Ea _], Hav' as [Ea' _]; rewrite Ea in Ea'; inversion Ea'; reflexivity).
+              subst av'. unfold p2. rewrite pget_pset_same. destruct done; reflexivity. }
+          { intros q' s' var' H1 H2 Hi. rewrite Hkeys2 in Hi. destruct (Hk1' _ Hi) as [E'|Hi'].
+            - apply (declared_mapvar_neq var' av); [|exact Hav|exact E'].
+              destruct (wf_class_inv m Hwc) as [F1 F2 F3 F4 F5 F6 F7 F8 F9 F10 F11 F12 F13].
+              rewrite forallb_forall in F9. pose proof (F9 _ H2) as G1. cbn [fst snd] in G1. apply andb_true_iff in G1 as [G1 G2].
+              apply str_eqb_eq in G1. split; [exact G2|rewrite G1; exact H2].
+            - apply (Hfresh q' s' var' (or_intror H1) H2 Hi'). }
+          exists p'. split; [exact E|]. split; [exact Hi'|]. split.
+          * intros k Hk. apply Hk'. rewrite Hkeys2. apply Hk1. exact Hk.
+          * intros q' s' var' [E'|H1] H2; [|apply (Hd' q' s' var' H1 H2)].
+            inversion E'; subst. rewrite (assoc_attr _ _ H2) in Hna. discriminate Hna.
     Qed.
 
     Lemma bind_attrs_ok en attrs :
@@ -706,48 +1063,27 @@ Section Main.
         /\ (forall k pv, In (k, pv) pa -> exists var, In var avars /\ k = v_name var /\ pv = PV (F var))
         /\ (forall var, In var avars -> ~ In (v_name var) (map fst pa) -> default_call (v_default var) = F var).
     Proof.
-      intros Hen Hat Hr. destruct (reads_attrs_carried (en_ns en) attrs Hr) as [Hc [Hem [Hnd _]]].
-      assert (Hcd : forall q s, In (q, s) (decl attrs) -> carried (en_ns en) q s).
-      { intros q s Hqs. apply decl_in in Hqs as [Hqs Hnx]. destruct (Hc q s Hqs) as [[E _]|[_ H]]; [contradiction|exact H]. }
-      assert (Hndd : NoDup (map fst (decl attrs))).
-      { unfold decl. clear -Hnd. induction attrs as [|[q s] r IH]; [constructor|]. cbn [map fst] in Hnd. inversion Hnd as [|? ? Hq Hr']; subst.
-        cbn [filter fst]. destruct (negb (str_eqb q XSI_TYPE)); [|apply IH; exact Hr'].
-        cbn [map fst]. constructor; [|apply IH; exact Hr'].
-        intros Hi. apply Hq. apply in_map_iff in Hi as [[q' s'] [E Hi]]. cbn [fst] in E. subst q'.
-        apply filter_In in Hi as [Hi _]. apply in_map_iff. exists (q, s'). split; [reflexivity|exact Hi]. }
-      assert (Hent : forall q s, In (q, s) (decl attrs) ->
-                exists var, In var avars /\ v_qname var = q /\ entry q = (v_name var, PV (F var))).
-      { intros q s Hqs. destruct (Hcd q s Hqs) as [var [t [Hin [Hq _]]]].
-        exists var. split; [|split; [exact Hq|]].
-        - unfold avars. rewrite (avars_eq m Hwc). apply sort_in. apply in_map_iff. exists (q, var). split; [reflexivity|exact Hin].
-        - unfold entry. rewrite (assoc_attr q var Hin). reflexivity. }
-      assert (Hnames' : NoDup (map (fun qs : qname * str => fst (entry (fst qs))) (decl attrs))).
-      { rewrite <- (map_map fst (fun q => fst (entry q))). apply NoDup_map_inj_in; [|exact Hndd].
-        intros q q' Hq Hq' E. apply in_map_iff in Hq as [[q0 s0] [E0 Hq]], Hq' as [[q1 s1] [E1 Hq']].
-        cbn [fst] in E0, E1. subst q0 q1.
-        destruct (Hent q s0 Hq) as [var [Hv [Hqv He]]], (Hent q' s1 Hq') as [var' [Hv' [Hqv' He']]].
-        rewrite He, He' in E. cbn [fst] in E.
-        pose proof (names_inj var var' (avar_all var Hv) (avar_all var' Hv') E). subst var'. congruence. }
-      exists (map (fun qs => entry (fst qs)) (decl attrs)).
-      split; [|split; [|split]].
-      - unfold bind_attrs. rewrite Hat. rewrite (bind_attrs_loop_ok en Hen attrs []); [reflexivity| |exact Hnames'].
-        intros q s Hqs. destruct (Hc q s Hqs) as [[E _]|[_ H]]; [left; exact E|right; exact H].
-      - rewrite map_map. exact Hnames'.
-      - intros k pv Hin. apply in_map_iff in Hin as [[q s] [E Hqs]]. cbn [fst] in E.
-        destruct (Hent q s Hqs) as [var [Hv [_ He]]]. rewrite He in E. inversion E; subst.
-        exists var. repeat split; assumption.
-      - intros var Hv Hnot.
-        destruct (wf_class_avar m var Hwc Hv) as [Hw Hina].
-        destruct (attr_cases var (F var) Hw (Hfa _ Hina)) as [[_ Hd]|[t [E _]]]; [exact Hd|].
-        exfalso. apply Hnot. rewrite map_map.
-        assert (Hqs0 : exists s0, In (v_qname var, s0) attrs) by (apply Hem; [exact Hv|congruence]).
-        destruct Hqs0 as [s0 Hqs].
-        assert (Hqd : In (v_qname var, s0) (decl attrs)).
-        { apply decl_in. split; [exact Hqs|]. intros Ex. destruct (wf_attr_inv var Hw) as [_ [_ [_ [_ [Hr' _]]]]].
-          unfold reserved_name in Hr'. rewrite Ex, str_eqb_refl, orb_true_r in Hr'. discriminate Hr'. }
-        apply in_map_iff. exists (v_qname var, s0). split; [|exact Hqd].
-        destruct (Hent _ _ Hqd) as [var' [Hv' [Hq' He']]]. cbn [fst]. rewrite He'. cbn [fst].
-        f_equal. symmetry. apply (nodup_map_inj v_qname avars); [exact avars_qnames_nodup|exact Hv|exact Hv'|congruence].
+      intros Hen Hat Hr. destruct (reads_attrs_carried (en_ns en) attrs Hr) as [Hc [Hem [Hnd [Hnox _]]]].
+      pose proof (map_part (en_ns en) attrs Hr) as Hmp.
+      destruct (bind_attrs_loop_ok en Hen attrs [] []) as [pa [E [[Hn1 [Hn2 Hn3]] [_ Hd]]]].
+      - intros q s Hqs. destruct (Hc q s Hqs) as [[Eq [xq [Hx _]]]|[[_ H]|[_ H]]]; [left; split; [exact Eq|congruence]|right; left; exact H|right; right; exact H].
+      - exact Hnd.
+      - cbn [app]. symmetry. exact Hmp.
+      - split; [constructor|]. split; [intros k pv []|]. intros av _. reflexivity.
+      - intros q s var _ _ [].
+      - exists pa. split; [unfold bind_attrs; rewrite Hat; exact E|]. split; [exact Hn1|]. split.
+        + intros k pv Hi. destruct (Hn2 k pv Hi) as [[var [Hdv [Ek Ev]]]|[av [Hav [Ek [Ev _]]]]].
+          * exists var. split; [apply declared_in_avars; exact Hdv|]. split; assumption.
+          * exists av. split; [apply (mapvar_in m av Hwc Hav)|]. split; [exact Ek|]. rewrite (mapvar_val av Hav). exact Ev.
+        + intros var Hv Hnot. destruct (wf_class_avar m var Hwc Hv) as [[Hw Hina]|Hmv].
+          * destruct (attr_cases var (F var) Hw (Hfa _ Hina)) as [[_ Hdf]|[t [Ee _]]]; [exact Hdf|].
+            exfalso. apply Hnot.
+            destruct (Hem var (conj Hw Hina)) as [s0 Hqs]; [rewrite Ee; discriminate|].
+            apply (Hd (v_qname var) s0 var Hqs Hina).
+          * pose proof (Hn3 var Hmv) as Hg. revert Hg. destruct mapval as [|kv0 mr] eqn:Emv; intros Hg.
+            -- rewrite (mapvar_val var Hmv), Emv. destruct Hmv as [_ Hwv].
+               unfold wf_anyattr in Hwv. apply andb_true_iff in Hwv as [_ Hdf]. destruct (v_default var); try discriminate Hdf. reflexivity.
+            -- exfalso. apply Hnot. unfold pget in Hg. apply assoc_in in Hg. apply in_map_iff. exists (v_name var, PV (VMap (kv0 :: mr))). split; [reflexivity|exact Hg].
     Qed.
 
     (* ---------------------------------------------------------------- child objects -> params *)
@@ -1360,7 +1696,7 @@ Section Main.
         rewrite Ex in Hr.
         assert (Hwk : wfr k) by (apply (Hnest _ var k Hin (or_introl eq_refl) Hcl)).
         destruct (IH k (VObj k fs') (Some (v_qname var)) None Hwk Hfk) with (pevs := a) as [attrs [ns [inner [-> [Hxt [Hxn Hrun]]]]]];
-          [intros q Hq; discriminate Hq|exact Hr|].
+          [intros q Hq; discriminate Hq|intros Hx; exfalso; apply Hx; reflexivity|exact Hr|].
         rewrite Hname in *.
         destruct (wfr_inv u k Hwk) as [mk [Hmk [_ [Hwck _]]]].
         destruct (wf_class_inv mk Hwck) as [G1 G2 G3 G4 G5 G6 G7 G8 G9 G10 G11 G12 G13].
@@ -1382,7 +1718,8 @@ Section Main.
         assert (Hwk : wfr cl').
         { apply (wfr_sub u cl m _ var k cl' Hwfcl Hmcl Hin (or_introl eq_refl) Hcl); [congruence|exact Hne|exact Hsub]. }
         destruct (IH cl' (VObj cl' fs') (Some (v_qname var)) (Some t) Hwk Hfk) with (pevs := a) as [attrs [ns [inner [-> [Hxt [Hxn Hrun]]]]]];
-          [intros q Hq; rewrite Hxv in Hq; inversion Hq; subst q; split; assumption|exact Hr|].
+          [intros q Hq; rewrite Hxv in Hq; inversion Hq; subst q; split; assumption
+          |intros _ mk0 Hmk0; apply (derived_ok_noxsi c u ok var k cl' mk0 Hdok Hmk0)|exact Hr|].
         rewrite Hname in *. rewrite Hxv in Hxt.
         destruct (wfr_inv u cl' Hwk) as [mk' [Hmk' [Hmc' [Hwck _]]]]. rewrite Hmk in Hmk'. inversion Hmk'; subst mk'. clear Hmk'.
         destruct (wf_class_inv mk Hwck) as [G1 G2 G3 G4 G5 G6 G7 G8 G9 G10 G11 G12 G13].
@@ -1704,6 +2041,7 @@ Section Main.
     Proof.
       unfold avars, evars. rewrite (avars_eq m Hwc), (evars_eq m Hwc), (allvars_eq m Hwc).
       eapply Permutation_trans; [|apply Permutation_sym, sort_perm].
+      rewrite (app_assoc (m_any_attributes m)).
       apply Permutation_app; apply sort_perm.
     Qed.
 
@@ -2059,7 +2397,7 @@ Section Main.
           unfold pv_of in Hp. destruct (occ var (F var)); [reflexivity|discriminate Hp].
       - (* init fields *)
         intros var Hv. destruct (allvars_split var Hv) as [Ha|He].
-        + destruct (wf_class_avar m var Hwc Ha) as [Hw _]. destruct (wf_attr_inv var Hw) as [_ [Hc _]].
+        + pose proof (avar_common var Ha) as Hc.
           destruct (var_common_inv var Hc) as [Hi _]. exact Hi.
         + destruct (elem_var_facts var (Hev var He)) as [Hi _]. exact Hi.
     Qed.
@@ -2125,7 +2463,7 @@ Section Main.
         destruct (Hin _ _ Hk) as [va [Hva [En _]]]. apply (avar_evar_disjoint va tv Hva Htv). symmetry. exact En. }
       assert (Hinits : forall var, In var (get_all_vars m) -> v_init var = true).
       { intros var Hv. destruct (allvars_split var Hv) as [Ha|He].
-        - destruct (wf_class_avar m var Hwc Ha) as [Hw _]. destruct (wf_attr_inv var Hw) as [_ [Hc _]].
+        - pose proof (avar_common var Ha) as Hc.
           destruct (var_common_inv var Hc) as [Hi _]. exact Hi.
         - rewrite Hevars in He. destruct He as [<-|[]]. exact Hinit. }
       cbn [Parser.step pend st_queue st_objects st_warn]. unfold element_bind.
@@ -2211,7 +2549,7 @@ Section Main.
         destruct (Hin _ _ Hk) as [va [Hva [En _]]]. apply (avar_evar_disjoint va tv Hva Htv). symmetry. exact En. }
       assert (Hinits : forall var, In var (get_all_vars m) -> v_init var = true).
       { intros var Hv. destruct (allvars_split var Hv) as [Ha|He].
-        - destruct (wf_class_avar m var Hwc Ha) as [Hw _]. destruct (wf_attr_inv var Hw) as [_ [Hc _]].
+        - pose proof (avar_common var Ha) as Hc.
           destruct (var_common_inv var Hc) as [Hi _]. exact Hi.
         - rewrite Hevars in He. destruct He as [<-|[]]. exact Hinit. }
       destruct (text_field_shape tv Hwt Hft) as [[Ex _]|[[t [_ [Hs _]]]|[q2 [Ht [Htf [Eq2 [Hokq Hq]]]]]]].
@@ -2285,7 +2623,7 @@ Section Main.
 
   Lemma obj_parses_step n : obj_parses n -> obj_parses (S n).
   Proof.
-    intros IH cl o qn xt Hwf Hfit Hxq pevs Hr.
+    intros IH cl o qn xt Hwf Hfit Hxq Hxf pevs Hr.
     destruct (fits_inv c u ok py_isspace n cl o Hfit) as [fs [m [-> [Hm [Hnames [Hfa [Hfe Hft]]]]]]].
     destruct (wfr_inv u cl Hwf) as [m' [Hm' [Hmc [Hwc Hnest]]]]. rewrite Hm in Hm'. inversion Hm'; subst m'. clear Hm'.
     cbn [RoundtripGen.eobj] in Hr. rewrite Hm in Hr. cbn [add_xsi_e reads_o] in Hr.
@@ -2295,12 +2633,22 @@ Section Main.
     { unfold elem_name. rewrite Hm. reflexivity. }
     rewrite <- Hq in Hp.
     exists attrs, ns, (kes ++ [PEnd (elem_name qn cl) text tail]).
-    destruct (reads_attrs_carried fs m Hwc Hfa xt Hxq ns attrs Hra) as [Hcar [_ [Hnda [Hnox Hx]]]].
+    assert (Hfm : forall av, m_any_attributes m = [av] -> fits_map ok m av (field_of fs av) = true)
+      by (intros av Hav; apply (fits_mapvar c u ok py_isspace n cl fs m av Hfit Hm Hav)).
+    assert (Hmaps : ord = true \/ m_any_attributes m = []).
+    { destruct Hmapsu as [Ho|Hno]; [left; exact Ho|right].
+      unfold nomaps_u in Hno. rewrite forallb_forall in Hno. specialize (Hno (cl, m) (assocN_in _ _ _ Hm)).
+      cbn [snd] in Hno. rewrite Hwc in Hno. cbn [negb orb] in Hno. destruct (m_any_attributes m); [reflexivity|discriminate Hno]. }
+    assert (Hxfree : xsi_val xt <> None -> find_any_attributes m XSI_TYPE = None)
+      by (intros Hx0; apply (Hxf Hx0 m Hm)).
+    destruct (reads_attrs_carried fs m Hwc Hfa xt Hxq Hfm Hxfree ns attrs Hra) as [Hcar [_ [Hnda [Hnox Hx]]]].
     assert (Hnil : assoc XSI_NIL attrs = None).
     { apply assoc_none. intros Hi. apply in_map_iff in Hi as [[k' s'] [Ek Hks]]. cbn [fst] in Ek. subst k'.
-      destruct (Hcar _ s' Hks) as [[E _]|[_ [var [t [_ [Hqv [Hw _]]]]]]]; [exact (xsi_nil_not_type E)|].
-      destruct (wf_attr_inv var Hw) as [_ [_ [_ [_ [Hr' _]]]]].
-      unfold reserved_name in Hr'. rewrite Hqv, str_eqb_refl in Hr'. discriminate Hr'. }
+      destruct (Hcar _ s' Hks) as [[E _]|[[_ [var [t [_ [Hqv [Hw _]]]]]]|[_ Hmp]]]; [exact (xsi_nil_not_type E)| |].
+      - destruct (wf_attr_inv var Hw) as [_ [_ [_ [_ [Hr' _]]]]].
+        unfold reserved_name in Hr'. rewrite Hqv, str_eqb_refl in Hr'. discriminate Hr'.
+      - destruct (mapval_facts fs m Hwc Hfm) as [_ Hmf]. destruct (Hmf _ Hmp) as [_ [_ [Hr' _]]]. cbn [fst] in Hr'.
+        unfold reserved_name in Hr'. rewrite str_eqb_refl in Hr'. discriminate Hr'. }
     assert (Hxty : Parser.xsi_type_of c attrs ns = ROk (xsi_val xt)).
     { unfold Parser.xsi_type_of. destruct (xsi_val xt) as [xq|] eqn:Ex.
       - destruct (Hx xq eq_refl) as [s0 [Hi Hres]].
@@ -2333,13 +2681,13 @@ Section Main.
         assert (Htext : text = text_of fs tv /\ kes = []).
         { unfold text_of. rewrite Ex in *. unfold RoundtripGen.e_field in Hk. rewrite (wf_text_nonil tv Hwt) in Hk. exact Hk. }
         destruct Htext as [-> ->]. cbn [app]. apply run_step.
-        apply (end_simple cl fs m Hwc Hmc Hnames Hfa xt Hxq attrs ns (length objs) xtv tv [] [] (elem_name qn cl) tail Q objs W Htx Hft eq_refl Hra Htl).
+        apply (end_simple cl fs m Hwc Hmc Hnames Hfa xt Hxq Hfm Hmaps Hxfree attrs ns (length objs) xtv tv [] [] (elem_name qn cl) tail Q objs W Htx Hft eq_refl Hra Htl).
         intros q1 E. rewrite Ex in E. discriminate E.
       + (* a leaf or a token list *)
         assert (Htext : text = text_of fs tv /\ kes = []).
         { rewrite (text_of_eq fs tv t Hs). apply (reads_text_content ns (eobj n) tv _ t text kes Hkt (wf_text_nowrap tv Hwt) Hs Hk). }
         destruct Htext as [-> ->]. cbn [app]. apply run_step.
-        apply (end_simple cl fs m Hwc Hmc Hnames Hfa xt Hxq attrs ns (length objs) xtv tv [] [] (elem_name qn cl) tail Q objs W Htx Hft eq_refl Hra Htl).
+        apply (end_simple cl fs m Hwc Hmc Hnames Hfa xt Hxq Hfm Hmaps Hxfree attrs ns (length objs) xtv tv [] [] (elem_name qn cl) tail Q objs W Htx Hft eq_refl Hra Htl).
         intros q1 E. rewrite E in Hs. inversion Hs as [p0 Hp0 E'|]. rewrite (leaf_nq c u ok t _ q1) in Hp0. discriminate Hp0.
       + (* a QName *)
         assert (He : e_field (eobj n) tv (field_of fs tv) = [EData [AQName (Bind.split_qname q1)]]).
@@ -2347,7 +2695,7 @@ Section Main.
           rewrite Hkt, (wf_text_nowrap tv Hwt). unfold RoundtripGen.e_data. cbn [RoundtripGen.e_atoms].
           rewrite (qname_nontrivial q1 Hqok). reflexivity. }
         rewrite He in Hk. destruct Hk as [s [Hs [Hne [-> ->]]]]. cbn [atoms_read] in Hs. cbn [app]. apply run_step.
-        apply (end_simple_q cl fs m Hwc Hmc Hnames Hfa xt Hxq attrs ns (length objs) xtv tv [] [] (elem_name qn cl) q1 s tail Q objs W
+        apply (end_simple_q cl fs m Hwc Hmc Hnames Hfa xt Hxq Hfm Hmaps Hxfree attrs ns (length objs) xtv tv [] [] (elem_name qn cl) q1 s tail Q objs W
                  Htx Hft eq_refl Hra Htl Eq Hne Hs).
     - (* complex content *)
       assert (Hpf : forall vv, In vv (pairs cl fs m) -> In (fst vv) (get_element_vars m) /\ pair_ok m n vv).
@@ -2369,7 +2717,7 @@ Section Main.
                   (ps_once _ _ _ _ (class_pairs_fits c u ok _ _ cl fs m Hwc Hnames Hfe))
                   (fun _ _ _ => conj (fun Hi => Hi) (fun Hi => Hi)) Hkids) as [asg' Hrun].
       unfold enW in Hrun. rewrite Hrun. apply run_step. cbn [app].
-      apply (end_complex cl fs m Hwc Hmc Hnames Hfa xt Hxq n Hfe Hwf Hm attrs ns (length objs) xtv asg' (elem_name qn cl) text tail Q objs W Htx eq_refl Hra Htl).
+      apply (end_complex cl fs m Hwc Hmc Hnames Hfa xt Hxq Hfm Hmaps Hxfree n Hfe Hwf Hm attrs ns (length objs) xtv asg' (elem_name qn cl) text tail Q objs W Htx eq_refl Hra Htl).
   Qed.
 
   Theorem all_parse : forall n, obj_parses n.
